@@ -113,6 +113,7 @@ def run_for(pid: str, seed: int = 0, jobs: int | None = None):
         v = byid[r["id"]]
         if "result" in r:
             summary["skipped"] += 1
+            summary.setdefault("skipped_ids", []).append(r["id"])
             continue
         new = [x for x in r["refuted"] if x not in base_ref]
         if v["kind"] == "break":
